@@ -7,6 +7,7 @@
 import Qfx.Model.Settings
 import Qfx.Lemmas.Values
 import Qfx.Props.C09Framer
+import Qfx.Props.C11
 open Qfx
 
 /-! ## integers: every typed integer accessor goes through `atoi` -/
@@ -43,12 +44,18 @@ theorem C09_settings_orig_safe_after_header (p : Ptr) (hp : p ≠ .nil) (ls : Li
     | global => unfold run; cases l <;> simp only [stepLine] <;> first | exact ih _ (by decide) | rfl
     | sess => unfold run; cases l <;> simp only [stepLine] <;> first | exact ih _ (by decide) | rfl
 
+/-! ## parsing any byte string, reading any field of the result (codec model; proofs in Props/C11.lean) -/
+
+/-- `ParseMessage` / `ParseMessageWithDataDictionary` (after the `fix:` commits 4186cca, b3fbcae) return a message or an error for
+    EVERY byte string and every pair of dictionaries: no index expression of the parser leaves its slice -/
+theorem C09_parse_total (d : Dicts) (w : Bytes) : ∀ x, parseMessage Fixes.cur d w ≠ .fault x := C11_parse_total d w
+
 /-!
 Clause checklist (properties.jsonl C09)
 * framing any byte stream                    : C09_framer_total, C09_framer_no_fault (Props/C09Framer.lean; original: C09_framer_orig_witness)
 * typed accessors on integers                : C09_atoi_total (original: C09_atoi_orig_witness); booleans/timestamps/floats: total by construction
                                                of the models in Qfx/Model/Values.lean (they return `Res.ok` or `Res.err` only — see C14)
-* parsing any byte string as a FIX message   : codec family (Props/C11.lean: D2/D3 witnesses and no-fault theorems) — re-exported below when merged
+* parsing any byte string as a FIX message   : C09_parse_total (= C11_parse_total); typed getters on the result: C11_getters_total; originals: C11_orig_no_checksum_faults (D2), C11_orig_xml_len_faults (D3)
 * loading any settings text                  : C09_settings_total (pointer automaton; the five regular expressions and AddSession are executed, not modelled)
 * loading any dictionary text                : C19 (cycle check: `loads well-formed / refuses cyclic`), encoding/xml is executed, not modelled
 * validating against any shipped dictionary  : C15's validator model is total by construction (structural recursion); executed by the `robust` family
